@@ -15,3 +15,17 @@ M("c19_setstate_keeps_list", ["C19"], ("Pyro5/core.py", "            self.object
 M("c19_emptyhost", ["C19"], ("Pyro5/core.py", "        if self.host is not None:\n            if \":\" in self.host:  # ipv6", "        if self.host:\n            if \":\" in self.host:  # ipv6"))
 M("c19_defaultport_pyro", ["C19"], ("Pyro5/core.py", "            self._parseLocation(location, None)", "            self._parseLocation(location, config.NS_PORT)"))
 M("c19_proxy_state_drops_location", ["C19"], ("Pyro5/client.py", "        self._pyroUri = core.URI(state[0])", "        self._pyroUri = core.URI(state[0].lower() if state[0].startswith('PYRO:') and '[' in state[0] else state[0])"))
+
+# ---------------------------------------------------------------- C06
+M("c06_swap_flags_seq_sender", ["C06"], ("Pyro5/protocol.py", "msgtype, serializer_id, flags, seq,\n", "msgtype, serializer_id, seq, flags,\n"))
+M("c06_drop_tiling_assert", ["C06"], ("Pyro5/protocol.py", "            assert i == self.annotations_size\n", ""))
+M("c06_size_check_after_body", ["C06"],
+  ("Pyro5/protocol.py", "        if self.data_size+self.annotations_size > config.MAX_MESSAGE_SIZE:\n            raise errors.ProtocolError(\"message too large ({:d}, max={:d})\"\n                                       .format(self.data_size+self.annotations_size, config.MAX_MESSAGE_SIZE))\n", ""),
+  ("Pyro5/protocol.py", "        assert not self.data\n", "        assert not self.data\n        if self.data_size+self.annotations_size > config.MAX_MESSAGE_SIZE:\n            raise errors.ProtocolError('message too large')\n"))
+M("c06_keep_compressed_flag", ["C06"], ("Pyro5/protocol.py", "            self.flags &= ~FLAGS_COMPRESSED\n            self.data_size", "            self.data_size"))
+M("c06_sender_limit_ignores_annotations", ["C06"], ("Pyro5/protocol.py", "        total_size = len(payload) + annotations_size\n", "        total_size = len(payload)\n"))
+M("c06_receiver_limit_off_by_one", ["C06"], ("Pyro5/protocol.py", "        if self.data_size+self.annotations_size > config.MAX_MESSAGE_SIZE:", "        if self.data_size+self.annotations_size >= config.MAX_MESSAGE_SIZE:"))
+M("c06_validate_skips_magic", ["C06"], ("Pyro5/protocol.py", "        if tag != b\"PYRO\" or ver != PROTOCOL_VERSION or magic != _magic_number:", "        if tag != b\"PYRO\" or ver != PROTOCOL_VERSION:"))
+M("c06_payload_len_not_checked", ["C06"], ("Pyro5/protocol.py", "        if len(payload) != self.data_size + self.annotations_size:", "        if len(payload) < self.data_size + self.annotations_size:"))
+M("c06_annotation_last_byte", ["C06"], ("Pyro5/protocol.py", "payload[i+8:i+8+length]     # note", "payload[i+8:i+8+length] if length != 1 else payload[i+8:i+8]    # note"))
+M("c06_corr_zero_dropped", ["C06"], ("Pyro5/protocol.py", "        if current_context.correlation_id:\n", "        if current_context.correlation_id and current_context.correlation_id.int:\n"))
